@@ -1,6 +1,7 @@
 package sim
 
 import (
+	"encoding/json"
 	"encoding/binary"
 	"encoding/hex"
 	"fmt"
@@ -363,7 +364,7 @@ func GenCfg(r *Rng) CfgSpec {
 
 // Cmd is one host action on a VM.
 type Cmd struct {
-	Kind  string `json:"k"`           // run | parse | rerun | runexpr | observe
+	Kind  string `json:"k"`           // run | parse | rerun | runexpr | observe | restore (Src = JSON variable map) | lang (Src = 0/1/2)
 	Src   string `json:"s,omitempty"` // program text
 	Local bool   `json:"l,omitempty"` // runexpr: share locals
 }
@@ -565,6 +566,13 @@ func DoCmd(vm *ds.Context, c Cmd) *Outcome {
 			err = vm.RunAfterParsed()
 		case "runexpr":
 			ret, err = vm.RunExpr(c.Src, c.Local)
+		case "restore":
+			// the host rolls its VM's variables back to a stored snapshot, in place
+			err = json.Unmarshal([]byte(c.Src), vm.Attrs)
+		case "lang":
+			// the host changes the error language of its VM between evaluations
+			n, _ := strconv.Atoi(c.Src)
+			vm.Config.ParseErrorLanguage = n
 		}
 	})
 	if cancelled || curMeterCancelled() {
